@@ -1,12 +1,12 @@
 package main
 
 import (
-	"time"
 	"bufio"
 	"fmt"
-	"strings"
 	"os"
 	"strconv"
+	"strings"
+	"time"
 )
 
 func itoa(n int) string { return strconv.Itoa(n) }
@@ -136,6 +136,8 @@ func main() {
 		runC16(cw, tier, seed)
 	case "c15":
 		runC15(cw, tier, seed)
+	case "c01cl":
+		runC01cluster(cw, tier, seed)
 	case "c17":
 		runC17(cw, tier, seed)
 	case "c18":
